@@ -275,6 +275,8 @@ impl<'r, 'a, RT: Runtime + 'r> Machine<'r, 'a, RT> {
     // Note: pub only for unit test steps.
     pub(crate) fn step(&mut self) -> Result<(), ActorError> {
         let op = self.bytecode[self.pc];
+        #[cfg(feature = "verif-hooks")]
+        super::verif::on_step(op, self.state.stack.len(), self.state.memory.len())?;
         unsafe { Self::JMPTABLE[op as usize](self) }
     }
 
